@@ -21,6 +21,17 @@ impl<'a> G<'a> {
     fn fun(&mut self) -> String {
         self.rng.pick(FUNS).to_string()
     }
+    /// A macro range: never a program-built map with several entries (the order in which such
+    /// a map is iterated is the hash map's, which neither the property nor the model fixes).
+    fn range(&mut self, d: u32) -> String {
+        match self.rng.below(6) {
+            0 | 1 => self.var(),
+            2 => format!("[{}, {}]", self.expr(d), self.expr(d)),
+            3 => format!("{{{}: {}}}", self.expr(d), self.expr(d)),
+            4 if d > 0 => format!("({} ? {} : {})", self.expr(d - 1), self.range(d - 1), self.range(d - 1)),
+            _ => format!("[{}]", self.expr(d)),
+        }
+    }
     fn expr(&mut self, d: u32) -> String {
         if d == 0 || self.rng.chance(1, 6) {
             return match self.rng.below(4) {
@@ -44,11 +55,11 @@ impl<'a> G<'a> {
             10 => {
                 let v = self.var();
                 let m = *self.rng.pick(&["all", "exists", "exists_one", "map", "filter"]);
-                format!("({}).{}({}, {})", self.expr(d), m, v, self.expr(d))
+                format!("({}).{}({}, {})", self.range(d), m, v, self.expr(d))
             }
             11 => {
                 let v = self.var();
-                format!("({}).map({}, {}, {})", self.expr(d), v, self.expr(d), self.expr(d))
+                format!("({}).map({}, {}, {})", self.range(d), v, self.expr(d), self.expr(d))
             }
             12 => format!("has(({}).{})", self.expr(d), self.var()),
             13 => format!("{}()", self.fun()),
